@@ -508,6 +508,8 @@ def run_path(ctx, case):
 
 
 def run_case(ctx, case):
+    if "collection_alias" in case:
+        return run_collection_alias(ctx, case)
     if "path" in case:
         run_path(ctx, case)
     else:
@@ -533,12 +535,95 @@ def configs():
 FROZEN_LETTERS = ("read", "with_alias", "with_target", "deepcopy", "mutate_last")
 
 
+# ---------------------------------------------------------------------------
+# collection-typed (non-passthrough) aliases: element helpers on the alias are local writes
+
+CA_LETTERS = ["alias_elem_inplace", "alias_elem_copy", "target_elem_inplace", "target_elem_copy", "read", "deepcopy", "delete_alias"]
+CA_KINDS = ["list", "dict", "set"]
+_CA = {}
+
+
+def ca_class():
+    if not _CA:
+        from typing import Dict, List, Set
+
+        from spec_classes import spec_class
+        from spec_classes.types import Alias
+
+        ns = {"__annotations__": {"xs": List[int], "ys": List[int], "m": Dict[str, int], "m2": Dict[str, int], "s": Set[int], "s2": Set[int]},
+              "xs": [1], "ys": Alias("xs"), "m": {"a": 1}, "m2": Alias("m"), "s": {1}, "s2": Alias("s"), "__module__": "vf.generated"}
+        _CA["cls"] = spec_class(bootstrap=True)(type("CA", (), ns))
+    return _CA["cls"]
+
+
+def run_collection_alias(ctx, case):
+    kind, seq = case["collection_alias"], case["ops"]
+    tname, aname, tsing, asing = {"list": ("xs", "ys", "x", "y"), "dict": ("m", "m2", "m_item", "m2_item"), "set": ("s", "s2", "s_item", "s2_item")}[kind]
+    obj = ca_class()()
+    T = {"list": [1], "dict": {"a": 1}, "set": {1}}[kind]
+    Ov = None
+    n = 1
+
+    def add(c, v):
+        c = copy.deepcopy(c)
+        if kind == "list":
+            c.append(v)
+        elif kind == "dict":
+            c[f"k{v}"] = v
+        else:
+            c.add(v)
+        return c
+
+    def args(v):
+        return (f"k{v}", v) if kind == "dict" else (v,)
+
+    for i, op in enumerate(seq):
+        n += 1
+        try:
+            if op == "alias_elem_inplace":
+                getattr(obj, f"with_{asing}")(*args(n), _inplace=True)
+                Ov = add(Ov if Ov is not None else T, n)
+            elif op == "alias_elem_copy":
+                obj = getattr(obj, f"with_{asing}")(*args(n))
+                Ov = add(Ov if Ov is not None else T, n)
+            elif op == "target_elem_inplace":
+                getattr(obj, f"with_{tsing}")(*args(n), _inplace=True)
+                T = add(T, n)
+            elif op == "target_elem_copy":
+                obj = getattr(obj, f"with_{tsing}")(*args(n))
+                T = add(T, n)
+            elif op == "deepcopy":
+                obj = copy.deepcopy(obj)
+            elif op == "delete_alias":
+                if Ov is None:
+                    continue
+                delattr(obj, aname)
+                Ov = None
+        except CLEAN as e:
+            ctx.fail(f"collection_alias:{kind}:{op}:raises:{type(e).__name__}", case, f"step {i} {op} raised {e!r}")
+            return
+        got_t, got_a = getattr(obj, tname), getattr(obj, aname)
+        want_a = Ov if Ov is not None else T
+        if got_t != T:
+            ctx.fail(f"collection_alias:{kind}:{op}:target_changed" if op.startswith("alias") else f"collection_alias:{kind}:{op}:target_wrong", case,
+                     f"step {i} {op}: target {tname} is {got_t!r}, expected {T!r} (a write to a non-passthrough alias shadows the target without modifying it)")
+            return
+        if got_a != want_a:
+            ctx.fail(f"collection_alias:{kind}:{op}:alias_wrong", case, f"step {i} {op}: alias {aname} reads {got_a!r}, expected {want_a!r}")
+            return
+        if Ov is not None and got_a is got_t:
+            ctx.fail(f"collection_alias:{kind}:{op}:entangled", case, f"step {i} {op}: the alias's local value IS the target's object")
+            return
+    ctx.case(case, "alias_elem_inplace" in seq and len(seq) >= 2)
+
+
 def units(tier, seed):
     n = len(list(configs()))
     per = 8
     out = [["enum", i, min(n, i + per)] for i in range(0, n, per)]
     out += [["hyp", i] for i in range(BOUNDS[tier]["hyp_units"])]
     out += [["hyp_path", i] for i in range(4)]
+    out.append(["collection_alias"])
     if tier == "thorough":
         out += [["fuzz", i] for i in range(4)]
     return out
@@ -578,6 +663,12 @@ def run_unit(ctx, unit):
         ctx.count("configs_exhausted", len(cfgs))
     elif kind == "hyp":
         run_given(ctx, lambda case: run_case(ctx, case), {"case": case_strategy()}, b["examples"], ctx.seed * 1000 + unit[1])
+    elif kind == "collection_alias":
+        for k in CA_KINDS:
+            for n in range(1, (4 if ctx.tier == "thorough" else 3) + 1):
+                for seq in itertools.product(CA_LETTERS, repeat=n):
+                    run_collection_alias(ctx, {"collection_alias": k, "ops": list(seq)})
+        ctx.count("collection_alias_completed")
     elif kind == "hyp_path":
         run_given(ctx, lambda case: run_case(ctx, case), {"case": path_strategy()}, b["path_examples"], ctx.seed * 1000 + 500 + unit[1])
     elif kind == "fuzz":
